@@ -111,6 +111,9 @@ var c03KeywordVars = []string{"verbatim", "endverbatim", "raw", "if", "endif", "
 var c03Verbatims = []string{
 	"{{ raw }}", "{% if x %}a{% endif %}", "{# not a comment #}", "{{ 'unclosed", "{%", "{{", "}} %} #}", "{% endverb %}", "{% for i in x %}{{ i }}{% endfor %}",
 	"plain é 中", "", " ", "\n", "{{ \"q\" }}{% set a = 1 %}", "{%- if -%}", "{{- x -}}", "{% verbatim %}", "#{ }", "{{{{",
+	// near misses of the end tag: only {% endverbatim %} itself, with optional blanks and trim markers, ends the body
+	"{% endverbatims %}", "a{% endverbatim_x %}b", "{%endverbatim2%}", "{% end verbatim %}", "{% endverbatim", "{% endverbatim x %}", "{ % endverbatim %}", "{% endverbatim % }", "{% ENDVERBATIM %}",
+	"{%endverbatimé%}", "{{ endverbatim }}", "{% endverbatim -- %}", "{%~ endverbatim %}", "'{% endverbati' ~ 'm %}'", "{% xendverbatim %}", "{%\vendverbatim %}",
 }
 
 var c03Comments = []string{" c ", "", "\n multi\n line \n", " {{ x }} ", " {% if %} ", " # } ", " é 中 ", "-", " {# nested open ", " '\" ", " }} %} "}
